@@ -5,6 +5,7 @@ import (
 	"flag"
 	"fmt"
 	"os"
+	"runtime/pprof"
 	"sort"
 	"strings"
 	"time"
@@ -29,8 +30,14 @@ func cmdRun(args []string) int {
 	native := fs.Bool("native", false, "run path samples natively and compare observations")
 	qto := fs.Duration("qto", 10*time.Second, "solver query timeout")
 	jsonOut := fs.String("json", "", "write result JSON here")
+	cpuprof := fs.String("cpuprofile", "", "write CPU profile")
 	fs.Parse(args)
 
+	if *cpuprof != "" {
+		f, _ := os.Create(*cpuprof)
+		pprof.StartCPUProfile(f)
+		defer pprof.StopCPUProfile()
+	}
 	cfg := interp.Config{Workers: *workers, ConcretizeCap: *ccap, PreemptionBound: *pb, MaxSteps: *steps,
 		MaxConcreteAlloc: 1 << 22, MaxPaths: *maxPaths, RaceDetect: *race, QueryTimeout: *qto, Verbose: *verbose,
 		Trace: *trace, KeepSamples: 2000}
